@@ -203,10 +203,7 @@ def run(ck, prog, tier, load):
     for bb, fl in rd:
         ok = any(e_calls(c, r"InnerDispatcher::read_available$") and lab is True for c, lab, a in poll.guards(bb))
         ck.ob("C04-c.eof-sets-read-disconnect", "Dispatcher::poll", ok, poll, bb, "READ_DISCONNECT is set on the edge where read_available reported end of input")
-        se = [b2 for b2, t in poll.calls(r"PayloadSender::set_error$") if poll.dominates(bb, b2)]
-        fe = [b2 for b2, t in poll.calls(r"PayloadSender::feed_eof$") if poll.dominates(bb, b2)]
-        ok2 = bool(se) and bool(fe) and all(any(poll.dominates(s, f) for s in se) for f in fe)
-        ck.ob("C04-c.eof-fails-body-first", "Dispatcher::poll", ok2, poll, fe[0] if fe else bb, "an unfinished request body gets set_error(Incomplete) before feed_eof (never a clean end for a cut body)")
+    eof_fails_body_first(ck, prog, "C04-c")
     sd = [(bb, fl) for bb, op, fl, t in ops if op == "insert" and "SHUTDOWN" in fl]
     ck.anchor("C04-c", len(sd), 2, "insert(SHUTDOWN) in Dispatcher::poll")
     ok = any(guarded_by(poll, bb, flag_edge("READ_DISCONNECT", True))[0] for bb, fl in sd)
@@ -268,3 +265,16 @@ def timer_polls_observed(ck, prog, P):
     for bb in sets:
         ok, wit = si.must_pass_after(bb, si.returns(), inits) if inits else (False, None)
         ck.ob(P + ".arming-always-polls", "TimerState::set_and_init", ok, si, bb, "after storing the new timer it is polled once (init) on every path, also when a timer was already active", witness=si.path_lines(wit))
+
+
+def eof_fails_body_first(ck, prog, P):
+    """when the peer's end of input is seen with a request body still open, the body is failed (set_error(Incomplete))
+    before its end is signalled (feed_eof), for every kind of body; shared by C04 (shutdown chain) and C07 (truthful ending)"""
+    poll = disp_poll(prog)
+    rd = [(bb, fl) for bb, op, fl, t in flag_ops(poll) if op == "insert" and "READ_DISCONNECT" in fl]
+    ck.anchor(P, len(rd), 1, "insert(READ_DISCONNECT) in Dispatcher::poll")
+    for bb, fl in rd:
+        se = [b2 for b2, t in poll.calls(r"PayloadSender::set_error$") if poll.dominates(bb, b2)]
+        fe = [b2 for b2, t in poll.calls(r"PayloadSender::feed_eof$") if poll.dominates(bb, b2)]
+        ok2 = bool(se) and bool(fe) and all(any(poll.dominates(s_, f) for s_ in se) for f in fe)
+        ck.ob(P + ".eof-fails-body-first", "Dispatcher::poll", ok2, poll, fe[0] if fe else bb, "an unfinished request body gets set_error(Incomplete) before feed_eof on every path (never a clean end for a cut body, chunked or sized)")
